@@ -83,15 +83,9 @@ def leId : Elem → Elem → Bool
   | some _, none => false
   | some a, some b => decide (a ≤ b)
 
-/-- executable reference sort (insertion sort): for a total order the ordered permutation is unique,
-so this is *the* sorted sequence -/
-def insertSorted (le : Elem → Elem → Bool) (x : Elem) : Seq → Seq
-  | [] => [x]
-  | y :: ys => if le x y then x :: y :: ys else y :: insertSorted le x ys
-
-def sort (le : Elem → Elem → Bool) : Seq → Seq
-  | [] => []
-  | x :: xs => insertSorted le x (sort le xs)
+/-- executable reference sort (core's verified merge sort): for a total order the ordered
+permutation is unique, so this is *the* sorted sequence -/
+def sort (le : Elem → Elem → Bool) (s : Seq) : Seq := s.mergeSort le
 
 /-- executable reference binary search, the loop of glibc's `bsearch`:
 `l = 0; u = nmemb; while (l < u) { idx = (l + u) / 2; c = compar(key, base[idx]); … }`;
